@@ -5,7 +5,7 @@ import ast
 
 from . import e2_formula as F
 from .core import AnchorError, Unsupported
-from .e1_srcmodel import dotted, walk_no_nested, parent, ancestors
+from .e1_srcmodel import dotted, walk_no_nested, parent, ancestors, utext
 from .e2_eval import Evaluator, is_unknown, need
 
 CYC = "pyyeti/cyclecount.py"
@@ -44,11 +44,11 @@ def r5_binify_guards(ctx):
         ok = got.get("hi") is want[right]["hi"]
         ctx.check(ok, f"getbins (right={right}): the largest value is out of bounds exactly when it falls {'' if right else 'on or '}above the last edge", tests[0],
                   None if ok else {"operator": got.get("hi").__name__ if got.get("hi") else None})
-        sets = {ast.unparse(s).replace(" ", "") for s in tests[0].body + tests[0].orelse}
-        ok = sets == {"out_of_bounds=True", "out_of_bounds=False"} and "out_of_bounds=True" in {ast.unparse(s).replace(" ", "") for s in tests[0].body}
+        sets = {utext(s) for s in tests[0].body + tests[0].orelse}
+        ok = sets == {"out_of_bounds=True", "out_of_bounds=False"} and "out_of_bounds=True" in {utext(s) for s in tests[0].body}
         ctx.check(ok, f"getbins (right={right}): the verdict is True on that test and False otherwise", tests[0], nontrivial=False)
     # scalar bins: automatic edges cover the data; the open edge is widened on the side `right` selects
-    t = ast.unparse(fn).replace(" ", "")
+    t = utext(fn)
     ok = "bb=np.linspace(mn,mx,bins+1)" in t and "p=0.001*(mx-mn)" in t and "ifright:bb[0]-=pelse:bb[-1]+=p" in t.replace("\n", "") \
         and "out_of_bounds=False" in t
     ctx.check(ok, "getbins (scalar bins): edges span [mn, mx], the open edge (first for right=True, last otherwise) is moved outward, and nothing is out of bounds", fn)
@@ -58,7 +58,7 @@ def r5_binify_guards(ctx):
     ctx.check(ok, "getbins: explicit bins must be strictly increasing", fn, nontrivial=False)
     # _binify
     fb = ctx.src.func(CYC, "_binify")
-    t = ast.unparse(fb).replace(" ", "")
+    t = utext(fb)
     ok = "bin_indices_range=np.digitize(cycles[:,0],bins_range,right=right)-1" in t and "bin_indices_mean=np.digitize(cycles[:,1],bins_mean,right=right)-1" in t
     ctx.check(ok, "_binify: amplitude (column 0) and mean (column 1) are binned with digitize(..., right=right) - 1", fb)
     arms = [s for s in fb.body if isinstance(s, ast.If) and ast.unparse(s.test) == "ensure_boundaries"]
@@ -74,7 +74,7 @@ def r5_binify_guards(ctx):
     ok = "markov_matrix=np.zeros((num_bins_mean,num_bins_range),np.float64)" in t and "num_bins_mean=len(bins_mean)-1" in t and "num_bins_range=len(bins_range)-1" in t
     ctx.check(ok, "_binify: the table has one row per mean bin and one column per amplitude bin", fb)
     bf = ctx.src.func(CYC, "binify")
-    t = ast.unparse(bf).replace(" ", "")
+    t = utext(bf)
     ok = "ampb=getbins(ampbins,*maxmin(rf[:,0]),right,check_bounds)" in t and "aveb=getbins(meanbins,*maxmin(rf[:,1]),right,check_bounds)" in t \
         and "out=out_ampor out_ave".replace(" ", "") in t and "table=_binify(rf,ampb,aveb,right,out)" in t
     ctx.check(ok, "binify: the index guard is switched on exactly when getbins reports a value out of bounds (amplitude or mean)", bf)
@@ -85,7 +85,7 @@ def r5_binify_guards(ctx):
     dv = dict(zip(names, [ast.unparse(x) for x in d]))
     ctx.check(dv.get("check_bounds") == "True", "binify: bounds are checked by default", bf, dv)
     sc = ctx.src.func(CYC, "sigcount")
-    ok = "binify(rf,ampbins,meanbins,right,precision,retbins,use_pandas)" in ast.unparse(sc).replace(" ", "")
+    ok = "binify(rf,ampbins,meanbins,right,precision,retbins,use_pandas)" in utext(sc)
     ctx.check(ok, "sigcount never overrides check_bounds", sc)
     ok = "index=_getlabels(form,aveb)" in t and "columns=_getlabels(form,ampb)" in t and "form='('+f+']'" in t and "form='['+f+')'" in t
     ctx.check(ok, "binify: row labels come from the mean bins, column labels from the amplitude bins, with the bracket style of `right`", bf)
@@ -113,7 +113,7 @@ def r6_tolerance_strictness(ctx):
             ctx.check(ok, f"{q.split('#')[0]}: the tolerance is relative to the largest sample-to-sample difference", s, t)
     ctx.check(n >= 4, f"tolerance rule bound to {n} comparisons in find_unique and findap", LOC + ":1", nontrivial=False)
     fa = ctx.src.func(CYC, "findap")
-    t = ast.unparse(fa).replace(" ", "")
+    t = utext(fa)
     if "locate.find_unique" in t:
         ok = "u=locate.find_unique(y,tol)" in t and "s=np.sign(np.diff(yu))" in t and "pv[1:-1]=np.abs(np.diff(s))==2" in t and "pv=np.ones(yu.size,bool)" in t
         ctx.check(ok, "findap (numpy variant): works on de-duplicated samples; interior reversals are slope-sign changes; the first sample is always kept", fa)
@@ -128,7 +128,7 @@ def r1_exponents(ctx):
         if isinstance(st, ast.Assign) and isinstance(st.targets[0], ast.Name) and st.targets[0].id in ("b4", "b8", "b12") and isinstance(st.value, ast.Constant):
             env[st.targets[0].id] = st.value.value
     ctx.check(env == {"b4": 4, "b8": 8, "b12": 12}, "fdepsd: fatigue exponents b4, b8, b12 are 4, 8, 12", fn, env)
-    t = ast.unparse(fn).replace(" ", "")
+    t = utext(fn)
     for b in (4, 8, 12):
         ok = f"Df{b}[j]=(BinAmps[j]**b{b}).dot(BinCount[j])" in t
         ctx.check(ok, f"fdepsd: damage indicator Df{b} = sum(amplitude^{b} * non-cumulative count)", fn)
@@ -188,7 +188,7 @@ def r1_exponents(ctx):
         else:
             ctx.error(f"fdepsd [{label}]: Gmax", arms[0], repr(gm))
     vm = ctx.src.func(SRS, "vrs")
-    ok = "z_miles=np.sqrt(np.pi/2*freq*Q*psdfull.T).T" in ast.unparse(vm).replace(" ", "")
+    ok = "z_miles=np.sqrt(np.pi/2*freq*Q*psdfull.T).T" in utext(vm)
     ctx.check(ok, "srs.vrs: z_miles^2 = (pi/2) f Q PSD (the reference the absacce arm is compared with)", vm, nontrivial=False)
     n0 = [s for s in fn.body if isinstance(s, ast.Assign) and ast.unparse(s.targets[0]) in ("N0", "lnN0")]
     ok = [ast.unparse(s.value).replace(" ", "") for s in n0] == ["freq*T0", "np.log(N0)"]
@@ -217,11 +217,11 @@ def r3_telescoping(ctx):
     # cumulative count definition on both serial and parallel side: count of cycles with amp >= level
     for rel, q in ((FDE, "fdepsd"), (FDE, "_dofde")):
         f2 = ctx.src.func(rel, q)
-        t = ast.unparse(f2).replace(" ", "")
+        t = utext(f2)
         ok = ("pv=amp>=BinAmps[j,jj]" in t and "Count[j,jj]=np.sum(count[pv])" in t) if q == "fdepsd" else \
             ("pv=amp>=BinAmps_[j,jj]" in t and "Count_[j,jj]=np.sum(count[pv])" in t)
         ctx.check(ok, f"{q}: Count[j, jj] = number of cycles with amplitude >= level jj (non-increasing in the level; level 0 = 0 counts every cycle)", f2)
-    t = ast.unparse(fn).replace(" ", "")
+    t = utext(fn)
     ok = "BinAmps+=np.arange(nbins,dtype=float)/nbins" in t and "BinAmps[j]*=Amax[j]" in t and "Amax[j]=amp.max()" in t
     ctx.check(ok, "fdepsd: amplitude levels are k/nbins of the largest cycle amplitude, k = 0..nbins-1 (first level 0)", fn)
     ok = "SRSmax[j]=abs(resphist).max()" in t and "rf=cyclecount.rainflow(resphist[ind])" in t and "ind=cyclecount.findap(resphist)" in t
